@@ -40,6 +40,7 @@ type Addr struct {
 	Idx  *Term      // rElem: element index (absolute)
 	Ty   types.Type // type of the content of the root location
 	Path []PathEl
+	SlOff, SlIdx *Term // rElem reached by indexing a slice: its offset and the index used
 }
 
 func (a *Addr) withPath(p PathEl) *Addr {
@@ -75,6 +76,8 @@ type State struct {
 	loopHeap  map[*Loop]map[string]*Term
 	clos      map[string]Val // closure reference (term key) -> function and bindings
 	invObjs   []invObj       // pointers whose type invariant was assumed on this path
+	iterHead  map[*Loop]*State // snapshot at the loop head of the current iteration
+	loopEntry map[*Loop]*State // snapshot at the first arrival at the loop (before havoc)
 }
 
 type invObj struct {
@@ -134,6 +137,18 @@ func (s *State) clone() *State {
 		n.objOf[k] = v
 	}
 	n.invObjs = append([]invObj{}, s.invObjs...)
+	if s.iterHead != nil {
+		n.iterHead = map[*Loop]*State{}
+		for k, v := range s.iterHead {
+			n.iterHead[k] = v
+		}
+	}
+	if s.loopEntry != nil {
+		n.loopEntry = map[*Loop]*State{}
+		for k, v := range s.loopEntry {
+			n.loopEntry[k] = v
+		}
+	}
 	n.assume = append([]*Term{}, s.assume...)
 	n.defers = append([]deferred{}, s.defers...)
 	n.trail = append([]string{}, s.trail...)
